@@ -21,7 +21,13 @@ deriving Repr, Inhabited
 def inKey (id : String) : Key := ("n1", "CIn", id)
 def outKey (id : String) : Key := ("n1", "COut", id)
 
-def mapsOutputs (c : Cfg) : Bool := c.kind == "qtransform" || c.kind == "transform" || c.kind == "qtransform-ignore"
+def mapsOutputs (c : Cfg) : Bool :=
+  c.kind == "qtransform" || c.kind == "transform" || c.kind == "qtransform-ignore" || c.kind == "transform-sel"
+
+/-- `transform-sel`: the controller lists its inputs with two label queries that add up (sel=a or sel=b, given in two
+    WithInputListOptions calls); an input outside the selection is not an input of the controller at all -/
+def selected (c : Cfg) (i : Res) : Bool :=
+  c.kind != "transform-sel" || i.labels.lookup "sel" == some "a" || i.labels.lookup "sel" == some "b"
 
 def destroyName : String := "Destroy[CIn]"
 
@@ -84,7 +90,7 @@ def specViolations (c : Cfg) (s : Store) (ids : List String) : List String :=
       let held := match o with
         | some o => !o.fins.isEmpty      -- still held by a foreign finalizer
         | none => false
-      match i with
+      match i.filter (selected c) with
       | some i =>
         -- WithIgnoreTeardownUntil(): a tearing-down input counts as running while other parties hold finalizers on it
         if i.phase == .running || (c.kind == "qtransform-ignore" && i.fins.any (· != c.name)) then
